@@ -262,3 +262,27 @@ PROPS['C16'] = dict(lean=['Mkdb.Props.C02'], facts=STORE_FACTS + ['lru.capacity'
     sig_filter=r'db:(cache-size-dependent|contents-differ:live|panic:live|hang:live|select-failed:live)', claim='pending', note='pending', rule='', shrink=False)
 PROPS['C17'] = dict(lean=['Mkdb.Props.C17'], facts=['skeleton.engine.Session.*', 'panics.engine.Session.*', 'skeleton.storage.OpenRelation', 'skeleton.storage.CreateDB', 'skeleton.storage.newFileStore', 'skeleton.storage.fileStore.close'],
     runs=[dict(cmd='sess', proto='sess')], sig_filter=r'sess:.*', claim='pending', note='pending', rule='')
+LOCK_FACTS = ['skeleton.engine.Evaluate*', 'skeleton.storage.fileStore.flushPages', 'skeleton.storage.newFileStore', 'skeleton.storage.RelationService.CreateTable',
+              'skeleton.storage.RelationService.StartTxn', 'skeleton.storage.RelationService.EndTxn', 'storage.file_writers', 'storage.callers.*', 'skeleton.storage.wal.flush',
+              'const.storage.pageFlushInterval']
+PROPS['C13'] = dict(
+    lean=['Mkdb.Props.C13'], facts=LOCK_FACTS + ['lock.*'], runs=[dict(cmd='lock', proto='lock', race=True)], sig_filter=r'lock:.*', shrink=False,
+    claim='Proof (partial by nature): C13_exclusion - in every reachable state of every schedule of the lock model (reader/writer lock, '
+          'session goroutine: begin -> change* -> log -> end, flusher goroutine: lock -> page writes -> header -> unlock) the flusher '
+          'holding the lock and the session being inside a bracketed statement exclude each other; C13_no_write_inside_statement; '
+          'C13_all_bracketed - a `decide` over facts re-extracted from the source on every run: every Evaluate* opens with '
+          'StartTxn/defer EndTxn, the log append is inside the bracket, CREATE TABLE changes pages under the shared lock, flushPages '
+          'holds the exclusive lock for its whole body, the data file is written only from flushPages; '
+          'C13_unbracketed_counterexample shows the hypothesis is needed. What the model cannot exhibit (Go memory model, RWMutex, '
+          'scheduler) is exercised, not proved: the harness is built with -race and run against the real 100 ms timer - statements are '
+          'parked inside their log append for more than three ticks while page/header writes are counted (must be 0), and a storm of '
+          'CREATE/INSERT/SELECT/UPDATE/DELETE across many ticks must leave the race detector silent.',
+    note='Trusted: Lean kernel, the hand-written lock model, the extractor\'s call skeletons, sync.RWMutex, time.Ticker, the Go race '
+         'detector (happens-before, independent of the timing observed). Labelled partial: thread interleavings of the real runtime are '
+         'sampled, not proved.',
+    rule='2 (thorough 16) rounds of parked INSERT / UPDATE / DELETE, each held for 350 ms inside its log append; a storm of about '
+         '1-5 s of CREATE TABLE + DML + SELECT on fresh tables across timer ticks under -race. Non-trivial: parked statements and a '
+         'storm of more than 10 tables; distinct by scenario.',
+    assumptions=['a data race on shared page/cache state is reported by the race detector when both accesses occur in the run'],
+    trusted_base=['model Mkdb/Model/Lock.lean; facts Mkdb/Generated/Locks.lean regenerated by tools/extract'],
+)
